@@ -7,7 +7,17 @@ pub struct Rng(pub u64);
 
 impl Rng {
     pub fn new(seed: u64) -> Self {
-        Rng(seed.wrapping_mul(0x9E3779B97F4A7C15).wrapping_add(0x1234_5678_9abc_def1))
+        // the state is a mixed image of the seed: with the plain `seed * G + c` consecutive seeds gave the
+        // same output stream shifted by one draw, so "another seed" was almost the same list of cases
+        let mut r = Rng(seed.wrapping_mul(0x9E3779B97F4A7C15).wrapping_add(0x1234_5678_9abc_def1));
+        let a = r.next();
+        let b = r.next();
+        Rng(a ^ b.rotate_left(29) ^ seed.wrapping_mul(0xD6E8FEB86659FD93))
+    }
+    /// deterministic derivation of case-internal data (keys, ids, payloads) from a case parameter: the original
+    /// formula, kept so that stored corpus cases keep their meaning
+    pub fn derive(x: u64) -> Self {
+        Rng(x.wrapping_mul(0x9E3779B97F4A7C15).wrapping_add(0x1234_5678_9abc_def1))
     }
     pub fn next(&mut self) -> u64 {
         self.0 = self.0.wrapping_add(0x9E3779B97F4A7C15);
